@@ -21,6 +21,26 @@ Theorem C20_kallen_factor : forall x y z, 0 <= y -> 0 <= z ->
 Proof. exact kallen_factor. Qed.
 
 (* third Mandelstam variable of an event, any frame *)
+(* the same functions with literal zeros inserted BEFORE doit() (massless particles, sigma = 0 in any slot):
+   no value-inspecting shortcut changes the function *)
+Theorem C20_kallen_vanishing_arguments : forall x y z,
+  denR (envK x y z) gen_kallen_x0 = kallenR 0 y z /\
+  denR (envK x y z) gen_kallen_y0 = kallenR x 0 z /\
+  denR (envK x y z) gen_kallen_z0 = kallenR x y 0 /\
+  denR (envK x y z) gen_kallen_xy0 = kallenR 0 0 z /\
+  denR (envK x y z) gen_kallen_float0 = kallenR 0 y z.
+Proof. exact kallen_zero_args. Qed.
+Theorem C20_kibble_massless_particles : forall s1 s2 s3 m0 m1 m2 m3 o,
+  denR (envM s1 s2 s3 m0 m1 m2 m3 o) gen_kibble_m1_0 =
+    kallenR (kallenR s2 (m2^2) (m0^2)) (kallenR s3 (m3^2) (m0^2)) (kallenR s1 0 (m0^2)) /\
+  denR (envM s1 s2 s3 m0 m1 m2 m3 o) gen_kibble_m2_0 =
+    kallenR (kallenR s2 0 (m0^2)) (kallenR s3 (m3^2) (m0^2)) (kallenR s1 (m1^2) (m0^2)) /\
+  denR (envM s1 s2 s3 m0 m1 m2 m3 o) gen_kibble_m3_0 =
+    kallenR (kallenR s2 (m2^2) (m0^2)) (kallenR s3 0 (m0^2)) (kallenR s1 (m1^2) (m0^2)) /\
+  denR (envM s1 s2 s3 m0 m1 m2 m3 o) gen_kibble_s1_0 =
+    kallenR (kallenR s2 0 (m0^2)) (kallenR s3 0 (m0^2)) (kallenR 0 (m1^2) (m0^2)).
+Proof. exact kibble_massless. Qed.
+
 Theorem C20_third_mandelstam_event :
   forall E1 x1 y1 z1 E2 x2 y2 z2 E3 x3 y3 z3 m0 m1 m2 m3 s3 o,
   m1^2 = mink E1 x1 y1 z1 -> m2^2 = mink E2 x2 y2 z2 -> m3^2 = mink E3 x3 y3 z3 ->
@@ -65,6 +85,8 @@ Theorem C20_indicator_iff_dalitz_limits : forall s1 s2 s3 m0 m1 m2 m3 o,
      denR (envM s1 s2 s3 m0 m1 m2 m3 o) gen_within = o).
 Proof. exact within_iff_dalitz_limits. Qed.
 
+Print Assumptions C20_kallen_vanishing_arguments.
+Print Assumptions C20_kibble_massless_particles.
 Print Assumptions C20_kallen_defined.
 Print Assumptions C20_kallen_symmetric_xy.
 Print Assumptions C20_kallen_symmetric_yz.
